@@ -13,21 +13,25 @@ Lemma bstate_eqb_refl a : bstate_eqb a a = true.
 Proof. destruct a; reflexivity. Qed.
 
 Definition wstep (rm : N) (sp : bstate * option N) (e : cev) : option (bstate * option N) :=
-  match snd sp, e with
-  | Some w, EBuild who adm => if (who =? w) && adm then Some (fst sp, None) else None
-  | Some _, _ => None
-  | None, ETrans who from to now retry =>
-      if bstate_eqb from (fst sp) && valid_tr from to &&
+  let (s, p) := sp in
+  match e with
+  | ETrans who from to now retry =>
+      if bstate_eqb from s && valid_tr from to &&
          (match from, to with
           | Open, HalfOpen => retry <=? now
           | Closed, Open => retry =? now + rm
           | _, _ => true
           end)
-      then Some (to, match from, to with Open, HalfOpen => Some who | _, _ => None end)
+      then Some (to, match from, to with Open, HalfOpen => Some who | _, _ => p end)
       else None
-  | None, EBuild who adm =>
-      if (if adm then bstate_eqb (fst sp) Closed else true) then Some (fst sp, None) else None
-  | None, EExit _ _ _ => Some (fst sp, None)
+  | EBuild who adm =>
+      match p with
+      | Some w =>
+          if who =? w then Some (s, None)
+          else if (if adm then bstate_eqb s Closed else true) then Some (s, p) else None
+      | None => if (if adm then bstate_eqb s Closed else true) then Some (s, None) else None
+      end
+  | EExit _ _ _ => Some (s, p)
   end.
 
 Fixpoint walk (rm : N) (sp : bstate * option N) (log : list cev) : option (bstate * option N) :=
@@ -49,16 +53,18 @@ Lemma walk_ok rm log : forall s p s',
 Proof.
   induction log as [|e tl IH]; intros s p s' H; cbn [walk] in H.
   - inversion H; subst; reflexivity.
-  - destruct p as [w|]; destruct e as [who from to now retry | who adm | who err rt];
-      cbn [wstep fst snd] in H; cbn [ok_log]; try discriminate.
-    + destruct ((who =? w) && adm) eqn:E; try discriminate.
-      cbn [andb]. eapply IH; exact H.
+  - destruct e as [who from to now retry | who adm | who err rt]; cbn [wstep] in H; cbn [ok_log].
     + match type of H with (match (if ?c then _ else _) with _ => _ end) = _ => destruct c eqn:E end;
         try discriminate.
       cbn [andb]. eapply IH; exact H.
-    + match type of H with (match (if ?c then _ else _) with _ => _ end) = _ => destruct c eqn:E end;
-        try discriminate.
-      cbn [andb]. eapply IH; exact H.
+    + destruct p as [w|].
+      * destruct (who =? w); [eapply IH; exact H|].
+        match type of H with (match (if ?c then _ else _) with _ => _ end) = _ => destruct c eqn:E end;
+          try discriminate.
+        cbn [andb]. eapply IH; exact H.
+      * match type of H with (match (if ?c then _ else _) with _ => _ end) = _ => destruct c eqn:E end;
+          try discriminate.
+        cbn [andb]. eapply IH; exact H.
     + eapply IH; exact H.
 Qed.
 
@@ -67,15 +73,18 @@ Lemma walk_log_state rm log : forall s p s' p',
 Proof.
   induction log as [|e tl IH]; intros s p s' p' H; cbn [walk] in H.
   - inversion H; subst; reflexivity.
-  - destruct p as [w|]; destruct e as [who from to now retry | who adm | who err rt];
-      cbn [wstep fst snd] in H; cbn [log_state]; try discriminate.
-    + destruct ((who =? w) && adm); try discriminate. eapply IH; exact H.
+  - destruct e as [who from to now retry | who adm | who err rt]; cbn [wstep] in H; cbn [log_state].
     + match type of H with (match (if ?c then _ else _) with _ => _ end) = _ => destruct c end;
         try discriminate.
       eapply IH; exact H.
-    + match type of H with (match (if ?c then _ else _) with _ => _ end) = _ => destruct c end;
-        try discriminate.
-      eapply IH; exact H.
+    + destruct p as [w|].
+      * destruct (who =? w); [eapply IH; exact H|].
+        match type of H with (match (if ?c then _ else _) with _ => _ end) = _ => destruct c end;
+          try discriminate.
+        eapply IH; exact H.
+      * match type of H with (match (if ?c then _ else _) with _ => _ end) = _ => destruct c end;
+          try discriminate.
+        eapply IH; exact H.
     + eapply IH; exact H.
 Qed.
 
@@ -85,15 +94,24 @@ Qed.
 Definition plain (i : cinstr) : bool :=
   match i with BRead | BCas | BDone => false | _ => true end.
 
+(** what follows the guarded transition of a build: its result, or (a later slot rejects the
+    entry) the oracle point, the exit hook and the rejected result *)
+Definition btail (b : bool) : list cinstr :=
+  if b then [CPoint COracle; BHook; BDoneBlocked] else [BDone].
+
 Inductive okc : list cinstr -> Prop :=
 | okc_nil : okc []
 | okc_plain i c : plain i = true -> okc c -> okc (i :: c)
-| okc_read p c : okc c -> okc (BRead :: CPointIf FWant p :: BCas :: BDone :: c).
+| okc_read p b c : okc c -> okc (BRead :: CPointIf FWant p :: BCas :: btail b ++ c).
 
 Lemma okc_compile o c : okc c -> okc (compile_op o ++ c).
 Proof.
-  intros H; destruct o; cbn [compile_op app];
-    repeat (first [apply okc_read | apply okc_plain; [reflexivity|]]); assumption.
+  intros H; destruct o as [[|]|err]; cbn [compile_op app].
+  - apply okc_plain; [reflexivity|]. apply okc_plain; [reflexivity|].
+    apply (okc_read CO2H true c). exact H.
+  - apply okc_plain; [reflexivity|]. apply okc_plain; [reflexivity|].
+    apply (okc_read CO2H false c). exact H.
+  - repeat (apply okc_plain; [reflexivity|]). exact H.
 Qed.
 
 Lemma okc_op o : okc (compile_op o).
@@ -153,11 +171,34 @@ Proof. intros H; exact H. Qed.
 Lemma Inv_advance st pr dt : Inv st pr -> Inv (cadvance st dt) pr.
 Proof. intros H; exact H. Qed.
 
-Lemma exec_plain_inv who st t i st' t' p :
-  plain i = true -> Inv st None -> cexec true who st t i = (st', t', p) -> Inv st' None.
+Lemma wstep_build_other rm who s pr adm :
+  (forall w, pr = Some w -> w <> who) -> (adm = true -> s = Closed) ->
+  wstep rm (s, pr) (EBuild who adm) = Some (s, pr).
 Proof.
-  intros Hp HI H. destruct i; try discriminate Hp; cx H.
+  intros Hn Ha. cbn [wstep]. destruct pr as [w|].
+  - destruct (N.eqb_spec who w) as [->|_]; [exfalso; apply (Hn w); reflexivity|].
+    destruct adm; [rewrite (Ha eq_refl)|]; reflexivity.
+  - destruct adm; [rewrite (Ha eq_refl)|]; reflexivity.
+Qed.
+
+Lemma wstep_build_own rm who s adm :
+  wstep rm (s, Some who) (EBuild who adm) = Some (s, None).
+Proof. cbn [wstep]. rewrite N.eqb_refl. reflexivity. Qed.
+
+(** the plain instructions keep the pending probe when it is another thread's *)
+Lemma exec_plain_inv who st pr t i st' t' p :
+  plain i = true -> Inv st pr -> (forall w, pr = Some w -> w <> who) ->
+  cexec true who st t i = (st', t', p) -> Inv st' pr.
+Proof.
+  intros Hp HI Hn H. destruct i; try discriminate Hp; cx H.
   - (* BStart *) injection H as <- _ _. exact HI.
+  - (* BHook *)
+    destruct (k_live t && bstate_eqb (s_state st) HalfOpen) eqn:E; injection H as <- _ _; try exact HI.
+    apply Inv_state with (pr := pr); auto.
+    apply andb_true_iff in E. destruct E as [_ E]. apply bstate_eqb_eq in E. rewrite E. reflexivity.
+  - (* BDoneBlocked *)
+    injection H as <- _ _. apply Inv_log with (pr := pr); auto.
+    apply wstep_build_other; [exact Hn | discriminate].
   - (* XBegin *)
     destruct (k_starts t); [injection H as <- _ _; exact HI|].
     destruct (write _ _ _ _); injection H as <- _ _; try exact HI.
@@ -165,155 +206,256 @@ Proof.
   - (* XCasH2O *)
     destruct (get_flag t f); [destruct (bstate_eqb (s_state st) HalfOpen) eqn:E|];
       injection H as <- _ _; try exact HI.
-    apply Inv_state with (pr := None); auto.
+    apply Inv_state with (pr := pr); auto.
     apply bstate_eqb_eq in E. rewrite E. reflexivity.
   - (* XCasH2C *)
     destruct (k_hook t); [|injection H as <- _ _; exact HI].
     destruct (bstate_eqb (s_state st) HalfOpen) eqn:E; injection H as <- _ _; apply Inv_ring; auto.
-    apply Inv_state with (pr := None); auto.
+    apply Inv_state with (pr := pr); auto.
     apply bstate_eqb_eq in E. rewrite E. reflexivity.
   - (* XRead2 *) destruct (k_trip t); injection H as <- _ _; exact HI.
   - (* XCasC2O *)
     destruct (k_c2o t); [destruct (bstate_eqb (s_state st) Closed) eqn:E|];
       injection H as <- _ _; try exact HI.
-    apply Inv_state with (pr := None); auto.
+    apply Inv_state with (pr := pr); auto.
     apply bstate_eqb_eq in E. rewrite E. destruct HI as [Hr _]. rewrite Hr.
-    cbn [wstep fst snd bstate_eqb valid_tr andb]. rewrite N.eqb_refl. reflexivity.
+    cbn [wstep bstate_eqb valid_tr andb]. rewrite N.eqb_refl. reflexivity.
   - (* XDone *)
     destruct (k_adm t); injection H as <- _ _; try exact HI.
-    apply Inv_log with (pr := None); auto.
+    apply Inv_log with (pr := pr); auto.
   - (* CPoint *) injection H as <- _ _. exact HI.
   - (* CPointIf *) injection H as <- _ _. exact HI.
 Qed.
 
-(** what may be left to run inside a segment, with the facts the remaining code relies on *)
-Inductive mid (who : N) (st : cbs) (t : cthr) : list cinstr -> Prop :=
-| mid_ok c : Inv st None -> okc c -> mid who st t c
-| mid_pt p c : Inv st None -> okc c ->
-    (k_want t = false -> k_adm t = true -> s_state st = Closed) ->
-    mid who st t (CPointIf FWant p :: BCas :: BDone :: c)
-| mid_cas c : Inv st None -> okc c ->
-    (k_want t = false -> k_adm t = true -> s_state st = Closed) ->
-    mid who st t (BCas :: BDone :: c)
-| mid_done c pr : Inv st pr -> okc c ->
-    (pr = None -> k_adm t = true -> s_state st = Closed) ->
-    (forall w, pr = Some w -> w = who /\ k_adm t = true) ->
-    mid who st t (BDone :: c).
-
+(** a thread between two of its segments *)
 Definition parked (t : cthr) (code : list cinstr) : Prop :=
-  okc code \/ exists c, code = BCas :: BDone :: c /\ okc c /\ k_want t = true.
+  okc code \/
+  (exists b c, code = BCas :: btail b ++ c /\ okc c /\ k_want t = true) \/
+  (exists c, code = BHook :: BDoneBlocked :: c /\ okc c).
 
 Definition tinv (t : cthr) : Prop := parked t (k_code t).
 
-Lemma tinv_mid who st t : tinv t -> Inv st None -> mid who st t (k_code t).
+(** the thread is parked at the oracle point: its build result is still to come *)
+Definition own (t : cthr) : Prop :=
+  k_done t = false /\ exists c, k_code t = BHook :: BDoneBlocked :: c.
+
+Lemma parked_hook_okc t c : parked t (BHook :: BDoneBlocked :: c) -> okc c.
 Proof.
-  intros [H | (c & Hc & Ho & Hw)] HI.
+  intros [H | [(b & c' & Hc & _) | (c' & Hc & Ho)]].
+  - inversion H; subst.
+    match goal with H1 : okc (BDoneBlocked :: _) |- _ => inversion H1; subst end. assumption.
+  - discriminate.
+  - injection Hc as <-. exact Ho.
+Qed.
+
+Section Seg.
+Variable who : N.
+(** [P w]: thread [w] is another thread, parked at the oracle point *)
+Variable P : N -> Prop.
+
+Definition fgn (pr : option N) : Prop := forall w, pr = Some w -> w <> who /\ P w.
+Definition mof (pr : option N) : Prop := pr = Some who \/ fgn pr.
+
+Lemma fgn_ne pr : fgn pr -> forall w, pr = Some w -> w <> who.
+Proof. intros H w Hw. apply (H w Hw). Qed.
+
+Lemma fgn_none : fgn None.
+Proof. intros w X; discriminate. Qed.
+
+(** what may be left to run inside a segment, with the facts the remaining code relies on *)
+Inductive mid (st : cbs) (t : cthr) (pr : option N) : list cinstr -> Prop :=
+| mid_ok c : Inv st pr -> okc c -> fgn pr -> mid st t pr c
+| mid_pt p b c : Inv st pr -> okc c -> fgn pr ->
+    (k_want t = false -> k_adm t = true -> s_state st = Closed) ->
+    mid st t pr (CPointIf FWant p :: BCas :: btail b ++ c)
+| mid_cas b c : Inv st pr -> okc c -> fgn pr ->
+    (k_want t = false -> k_adm t = true -> s_state st = Closed) ->
+    mid st t pr (BCas :: btail b ++ c)
+| mid_done c : Inv st pr -> okc c ->
+    (pr = Some who \/ (fgn pr /\ (k_adm t = true -> s_state st = Closed))) ->
+    mid st t pr (BDone :: c)
+| mid_orc q c : Inv st pr -> okc c -> mof pr -> mid st t pr (CPoint q :: BHook :: BDoneBlocked :: c)
+| mid_hook c : Inv st pr -> okc c -> mof pr -> mid st t pr (BHook :: BDoneBlocked :: c)
+| mid_blk c : Inv st pr -> okc c -> mof pr -> mid st t pr (BDoneBlocked :: c).
+
+Lemma mid_Inv st t pr code : mid st t pr code -> Inv st pr.
+Proof. inversion 1; assumption. Qed.
+
+Lemma mid_nil st t pr : mid st t pr [] -> Inv st pr /\ fgn pr.
+Proof. inversion 1; split; assumption. Qed.
+
+Lemma tinv_mid st t pr : tinv t -> Inv st pr -> fgn pr -> mid st t pr (k_code t).
+Proof.
+  intros [H | [(b & c & Hc & Ho & Hw) | (c & Hc & Ho)]] HI Hg.
   - apply mid_ok; assumption.
   - rewrite Hc. apply mid_cas; auto. intros X; congruence.
+  - rewrite Hc. apply mid_hook; auto. right. exact Hg.
 Qed.
 
-Lemma step_mid who st t i tl st' t' p :
-  mid who st t (i :: tl) ->
+(** the thread's shape when a point fires, and whose probe is pending *)
+Definition pend (t : cthr) (pr : option N) (code : list cinstr) : Prop :=
+  parked t code /\
+  forall w, pr = Some w ->
+    (w = who /\ exists c, code = BHook :: BDoneBlocked :: c) \/ (w <> who /\ P w).
+
+Lemma fgn_pend t pr code : parked t code -> fgn pr -> pend t pr code.
+Proof. intros Hp Hf. split; [exact Hp|]. intros w Hw. right. apply Hf. exact Hw. Qed.
+
+Definition keeps (t : cthr) (code : list cinstr) : Prop := k_code t = code /\ k_done t = false.
+
+Ltac nopt := let X := fresh in intros X; exfalso; apply X; reflexivity.
+
+Lemma step_mid st t pr i tl st' t' p :
+  mid st t pr (i :: tl) ->
   cexec true who st (set_code t tl false) i = (st', t', p) ->
-  mid who st' t' tl /\ k_code t' = tl /\
-  (p <> None -> Inv st' None /\ parked t' tl).
+  exists pr', mid st' t' pr' tl /\ k_code t' = tl /\ k_done t' = false /\
+              (p <> None -> pend t' pr' tl).
 Proof.
   intros Hm H.
-  assert (Hc : k_code t' = tl).
-  { apply exec_code in H. destruct H as [H _]. exact H. }
-  split; [|split; [exact Hc|]].
-  - (* the remaining code is fine *)
-    inversion Hm as [c HI Ho Ec | p0 c HI Ho Hf Ec | c HI Ho Hf Ec | c pr HI Ho Hf Hg Ec]; subst.
-    + inversion Ho as [| i' c' Hp Ho' | p0 c' Ho']; subst.
-      * apply mid_ok; auto. eapply exec_plain_inv; eauto.
-      * (* BRead *)
-        cx H. destruct (s_state st) eqn:Es; [| |destruct (s_retry st <=? s_now st)];
-          cbv beta iota zeta in H; injection H as <- <- _; apply mid_pt; auto;
-          cbn [k_want k_adm]; intros; congruence.
-    + (* CPointIf FWant *)
-      cx H. injection H as <- <- _. apply mid_cas; auto.
-    + (* BCas *)
-      cx H. destruct (k_want t) eqn:Ew.
-      * destruct (bstate_eqb (s_state st) Open && (negb true || (s_retry st <=? s_now st))) eqn:E;
-          injection H as <- <- _.
-        -- apply andb_true_iff in E. destruct E as [E1 E2]. cbn [negb orb] in E2.
-           apply bstate_eqb_eq in E1.
-           apply mid_done with (pr := Some who); [ | exact Ho | | ].
-           ++ apply Inv_state with (pr := None); [exact HI|].
-              rewrite E1. cbn [wstep fst snd bstate_eqb valid_tr andb]. rewrite E2. reflexivity.
-           ++ intros; discriminate.
-           ++ intros w X; injection X as <-. split; reflexivity.
-        -- apply mid_done with (pr := None); [exact HI | exact Ho | | ].
-           ++ cbn [k_adm]. intros; discriminate.
-           ++ intros; discriminate.
-      * injection H as <- <- _. apply mid_done with (pr := None); [exact HI | exact Ho | | ].
-        -- cbn [set_code k_adm]. intros _. apply Hf. reflexivity.
-        -- intros; discriminate.
-    + (* BDone *)
-      cx H. injection H as <- _ _. apply mid_ok; auto.
-      destruct pr as [w|].
-      * destruct (Hg w eq_refl) as [-> Ha]. rewrite Ha.
-        apply Inv_log with (pr := Some who); auto.
-        cbn [wstep fst snd]. rewrite N.eqb_refl. reflexivity.
-      * apply Inv_log with (pr := None); auto.
-        destruct (k_adm t) eqn:Ea; [|reflexivity].
-        rewrite (Hf eq_refl eq_refl). reflexivity.
-  - (* a point fired *)
-    intros Hp.
-    inversion Hm as [c HI Ho Ec | p0 c HI Ho Hf Ec | c HI Ho Hf Ec | c pr HI Ho Hf Hg Ec]; subst.
-    + inversion Ho as [| i' c' Hpl Ho' | p0 c' Ho']; subst.
-      * split; [eapply exec_plain_inv; eauto | left; exact Ho'].
-      * exfalso. cx H. destruct (s_state st); [| |destruct (s_retry st <=? s_now st)];
-          cbv beta iota zeta in H; injection H as _ _ <-; apply Hp; reflexivity.
-    + cx H. injection H as <- <- <-. split; [exact HI|].
-      right. exists c. split; [reflexivity|]. split; [exact Ho|].
-      cbn [set_code k_want]. destruct (k_want t); [reflexivity | exfalso; apply Hp; reflexivity].
-    + exfalso. cx H. destruct (k_want t);
-        [destruct (bstate_eqb (s_state st) Open && (negb true || (s_retry st <=? s_now st)))|];
-        injection H as _ _ <-; apply Hp; reflexivity.
-    + exfalso. cx H. injection H as _ _ <-. apply Hp; reflexivity.
+  assert (Hcd : keeps t' tl).
+  { apply exec_code in H. cbn [set_code k_code k_done] in H. exact H. }
+  inversion Hm as [c HI Ho Hg Ec | p0 b c HI Ho Hg Hf Ec | b c HI Ho Hg Hf Ec | c HI Ho Hx Ec
+                   | q c HI Ho Hx Ec | c HI Ho Hx Ec | c HI Ho Hx Ec]; subst.
+  - inversion Ho as [| i' c' Hp Ho' | p0 b c' Ho']; subst.
+    + (* a plain instruction *)
+      destruct Hcd as [Hc Hd].
+      exists pr. split; [|split; [exact Hc|split; [exact Hd|]]].
+      * apply mid_ok; auto. eapply exec_plain_inv; eauto using fgn_ne.
+      * intros _. apply fgn_pend; [left; exact Ho' | exact Hg].
+    + (* BRead *)
+      exists pr. cx H.
+      destruct (s_state st) eqn:Es; [| |destruct (s_retry st <=? s_now st)];
+        cbv beta iota zeta in H; injection H as <- <- <-;
+        (split; [apply mid_pt; auto; cbn [k_want k_adm]; intros; congruence
+                |split; [reflexivity|split; [reflexivity|nopt]]]).
+  - (* CPointIf FWant *)
+    cx H. injection H as <- <- <-. exists pr.
+    split; [apply mid_cas; [exact HI|exact Ho|exact Hg|exact Hf]|].
+    split; [reflexivity|]. split; [reflexivity|].
+    intros Hp. apply fgn_pend; [|exact Hg].
+    right; left. exists b, c. split; [reflexivity|]. split; [exact Ho|].
+    cbn [set_code k_want]. destruct (k_want t); [reflexivity | exfalso; apply Hp; reflexivity].
+  - (* BCas *)
+    cx H. destruct (k_want t) eqn:Ew.
+    + destruct (bstate_eqb (s_state st) Open && (negb true || (s_retry st <=? s_now st))) eqn:E;
+        injection H as <- <- <-.
+      * apply andb_true_iff in E. destruct E as [E1 E2]. cbn [negb orb] in E2.
+        apply bstate_eqb_eq in E1.
+        assert (HI' : Inv (with_state st HalfOpen (s_retry st)
+                             (ETrans who Open HalfOpen (s_now st) (s_retry st))) (Some who)).
+        { apply Inv_state with (pr := pr); [exact HI|].
+          rewrite E1. cbn [wstep bstate_eqb valid_tr andb]. rewrite E2. reflexivity. }
+        exists (Some who). split; [|split; [reflexivity|split; [reflexivity|nopt]]].
+        destruct b; cbn [btail app].
+        -- apply mid_orc; [exact HI'|exact Ho|left; reflexivity].
+        -- apply mid_done; [exact HI'|exact Ho|left; reflexivity].
+      * exists pr. split; [|split; [reflexivity|split; [reflexivity|nopt]]].
+        destruct b; cbn [btail app].
+        -- apply mid_orc; [exact HI|exact Ho|right; exact Hg].
+        -- apply mid_done; [exact HI|exact Ho|right; split; [exact Hg|]].
+           cbn [k_adm]. intros; discriminate.
+    + injection H as <- <- <-.
+      exists pr. split; [|split; [reflexivity|split; [reflexivity|nopt]]].
+      destruct b; cbn [btail app].
+      * apply mid_orc; [exact HI|exact Ho|right; exact Hg].
+      * apply mid_done; [exact HI|exact Ho|right; split; [exact Hg|]].
+        cbn [set_code k_adm]. intros Ha. apply Hf; [first [exact Ew | reflexivity] | exact Ha].
+  - (* BDone *)
+    cx H. injection H as <- <- <-. destruct Hx as [-> | [Hg Hf]].
+    + exists None. split; [|split; [reflexivity|split; [reflexivity|nopt]]].
+      apply mid_ok; [|exact Ho|apply fgn_none].
+      apply Inv_log with (pr := Some who); [exact HI|]. apply wstep_build_own.
+    + exists pr. split; [|split; [reflexivity|split; [reflexivity|nopt]]].
+      apply mid_ok; [|exact Ho|exact Hg].
+      apply Inv_log with (pr := pr); [exact HI|].
+      apply wstep_build_other; [apply fgn_ne; exact Hg | exact Hf].
+  - (* the oracle point *)
+    cx H. injection H as <- <- <-. exists pr.
+    split; [apply mid_hook; [exact HI|exact Ho|exact Hx]|].
+    split; [reflexivity|]. split; [reflexivity|].
+    intros _. split.
+    + right; right. exists c. split; [reflexivity | exact Ho].
+    + intros w Hw. destruct Hx as [Hx | Hx].
+      * left. rewrite Hx in Hw. injection Hw as <-. split; [reflexivity|]. exists c; reflexivity.
+      * right. apply Hx. exact Hw.
+  - (* BHook *)
+    cx H. destruct (k_live t && bstate_eqb (s_state st) HalfOpen) eqn:E; injection H as <- <- <-;
+      exists pr; (split; [|split; [reflexivity|split; [reflexivity|nopt]]]).
+    + apply mid_blk; [|exact Ho|exact Hx].
+      apply Inv_state with (pr := pr); [exact HI|].
+      apply andb_true_iff in E. destruct E as [_ E]. apply bstate_eqb_eq in E. rewrite E. reflexivity.
+    + apply mid_blk; [exact HI|exact Ho|exact Hx].
+  - (* BDoneBlocked *)
+    cx H. injection H as <- <- <-. destruct Hx as [-> | Hg].
+    + exists None. split; [|split; [reflexivity|split; [reflexivity|nopt]]].
+      apply mid_ok; [|exact Ho|apply fgn_none].
+      apply Inv_log with (pr := Some who); [exact HI|]. apply wstep_build_own.
+    + exists pr. split; [|split; [reflexivity|split; [reflexivity|nopt]]].
+      apply mid_ok; [|exact Ho|exact Hg].
+      apply Inv_log with (pr := pr); [exact HI|].
+      apply wstep_build_other; [apply fgn_ne; exact Hg | discriminate].
 Qed.
 
-Lemma cseg_inv who : forall code st t st' t' p,
-  mid who st t code -> cseg true who st t code = (st', t', p) -> Inv st' None /\ tinv t'.
+Lemma cseg_inv : forall code st t pr st' t' p,
+  mid st t pr code -> cseg true who st t code = (st', t', p) ->
+  exists pr', Inv st' pr' /\ tinv t' /\
+              forall w, pr' = Some w -> (w = who /\ own t') \/ (w <> who /\ P w).
 Proof.
-  induction code as [|i tl IH]; intros st t st' t' p Hm H; cbn [cseg] in H.
-  - injection H as <- <- _.
-    inversion Hm; subst. split; [assumption|]. left. cbn [set_code k_code]. constructor.
+  induction code as [|i tl IH]; intros st t pr st' t' p Hm H; cbn [cseg] in H.
+  - injection H as <- <- _. apply mid_nil in Hm. destruct Hm as [HI Hg].
+    exists pr. split; [exact HI|]. split; [left; cbn [set_code k_code]; constructor|].
+    intros w Hw. right. apply Hg. exact Hw.
   - destruct (cexec true who st (set_code t tl false) i) as [[st1 t1] p1] eqn:E.
-    destruct (step_mid _ _ _ _ _ _ _ _ Hm E) as (M & Hc & Hp).
+    destruct (step_mid _ _ _ _ _ _ _ _ Hm E) as (pr1 & M & Hc & Hd & Hp).
     destruct p1 as [q|].
-    + injection H as <- <- _. destruct Hp as [HI Hk]; [discriminate|].
-      split; [exact HI|]. unfold tinv. rewrite Hc. exact Hk.
+    + injection H as <- <- _. destruct Hp as [Hk Hw]; [discriminate|].
+      exists pr1. split; [eapply mid_Inv; exact M|].
+      split; [unfold tinv; rewrite Hc; exact Hk|].
+      intros w X. destruct (Hw w X) as [[Ew [c Ec]] | R]; [left | right; exact R].
+      split; [exact Ew|]. split; [exact Hd|]. exists c. rewrite Hc. exact Ec.
     + eapply IH; eauto.
 Qed.
 
-Lemma run_code_inv who : forall code st t st' t',
-  mid who st t code -> run_code true who st t code = (st', t') -> Inv st' None.
+Lemma run_code_inv : forall code st t pr st' t',
+  mid st t pr code -> run_code true who st t code = (st', t') -> exists pr', Inv st' pr' /\ fgn pr'.
 Proof.
-  induction code as [|i tl IH]; intros st t st' t' Hm H; cbn [run_code] in H.
-  - injection H as <- <-. inversion Hm; subst. assumption.
+  induction code as [|i tl IH]; intros st t pr st' t' Hm H; cbn [run_code] in H.
+  - injection H as <- <-. exists pr. apply mid_nil in Hm. exact Hm.
   - destruct (cexec true who st (set_code t tl false) i) as [[st1 t1] p1] eqn:E.
-    destruct (step_mid _ _ _ _ _ _ _ _ Hm E) as (M & Hc & Hp).
+    destruct (step_mid _ _ _ _ _ _ _ _ Hm E) as (pr1 & M & _).
     eapply IH; eauto.
 Qed.
 
+End Seg.
+
 Lemma prelude_inv : forall ops st t, Inv st None -> Inv (prelude true st t ops) None.
 Proof.
+  assert (K : forall st t o st1 t1, Inv st None ->
+            run_code true 0 st t (compile_op o) = (st1, t1) -> Inv st1 None).
+  { intros st t o st1 t1 HI E.
+    destruct (run_code_inv 0 (fun _ => False) _ _ _ _ _ _
+                (mid_ok 0 (fun _ => False) st t None _ HI (okc_op o) (fgn_none _ _)) E)
+      as (pr' & HI' & Hg).
+    destruct pr' as [w|]; [destruct (Hg w eq_refl) as [_ []] | exact HI']. }
   induction ops as [|o ops IH]; intros st t HI; cbn [prelude]; auto.
   destruct o as [|err|dt].
-  - destruct (run_code true 0 st t (compile_op KB)) as [st1 t1] eqn:E. apply IH.
-    eapply run_code_inv; [|exact E]. apply mid_ok; [exact HI | apply okc_op].
+  - destruct (run_code true 0 st t (compile_op (KB false))) as [st1 t1] eqn:E. apply IH.
+    eapply K; eauto.
   - destruct (run_code true 0 st t (compile_op (KX err))) as [st1 t1] eqn:E. apply IH.
-    eapply run_code_inv; [|exact E]. apply mid_ok; [exact HI | apply okc_op].
+    eapply K; eauto.
   - apply IH. apply Inv_advance. exact HI.
 Qed.
 
 (** ** The scheduler *)
 
-Definition G (st : cbs) (ths : list cthr) : Prop := Inv st None /\ Forall tinv ths.
+(** [w] is a thread parked at the oracle point *)
+Definition Pth (ths : list cthr) (w : N) : Prop :=
+  exists tid t, w = N.of_nat tid + 1 /\ nth_error ths tid = Some t /\ own t.
 
-Lemma Forall_upd {A} (P : A -> Prop) : forall l i x, Forall P l -> P x -> Forall P (upd l i x).
+Definition G (st : cbs) (ths : list cthr) : Prop :=
+  exists pr, Inv st pr /\ Forall tinv ths /\ forall w, pr = Some w -> Pth ths w.
+
+Lemma Forall_upd {A} (Q : A -> Prop) : forall l i x, Forall Q l -> Q x -> Forall Q (upd l i x).
 Proof.
   induction l as [|h l IH]; intros i x Hl Hx; destruct i; cbn [upd]; auto;
     inversion Hl; subst; constructor; auto.
@@ -322,15 +464,34 @@ Qed.
 Lemma csched_step_G st ths tid st' ths' tr :
   G st ths -> csched_step true st ths tid = (st', ths', tr) -> G st' ths'.
 Proof.
-  intros [HI HF] H. unfold csched_step in H.
-  destruct (nth_error ths tid) as [t|] eqn:En; [|injection H as <- <- _; split; auto].
-  destruct (k_done t); [injection H as <- <- _; split; auto|].
+  intros (pr & HI & HF & HP) H. unfold csched_step in H.
+  destruct (nth_error ths tid) as [t|] eqn:En; [|injection H as <- <- _; exists pr; auto].
+  destruct (k_done t); [injection H as <- <- _; exists pr; auto|].
   destruct (cseg true (N.of_nat tid + 1) st t (k_code t)) as [[st1 t1] p1] eqn:E.
   injection H as <- <- _.
   assert (Ht : tinv t).
   { rewrite Forall_forall in HF. apply HF. eapply nth_error_In; eauto. }
-  apply cseg_inv in E; [|apply tinv_mid; auto].
-  destruct E as [HI1 Ht1]. split; [exact HI1|]. apply Forall_upd; auto.
+  assert (Hm : mid (N.of_nat tid + 1) (Pth ths) st t pr (k_code t)).
+  { destruct pr as [w|].
+    - destruct (N.eq_dec w (N.of_nat tid + 1)) as [->|Hne].
+      + destruct (HP _ eq_refl) as (tid' & t0 & Hw & Hn & Hd0 & c & Hcode).
+        assert (tid' = tid) by lia. subst tid'. rewrite En in Hn. injection Hn as <-.
+        unfold tinv in Ht. rewrite Hcode in Ht |- *.
+        apply mid_hook; [exact HI | eapply parked_hook_okc; exact Ht | left; reflexivity].
+      + apply tinv_mid; auto. intros w' X; injection X as <-.
+        split; [exact Hne | apply HP; reflexivity].
+    - apply tinv_mid; auto. apply fgn_none. }
+  destruct (cseg_inv _ _ _ _ _ _ _ _ _ Hm E) as (pr' & HI1 & Ht1 & Hw).
+  exists pr'. split; [exact HI1|]. split; [apply Forall_upd; auto|].
+  intros w X. destruct (Hw w X) as [[-> Ho] | [Hne (tid' & t0 & Hw0 & Hn & Ho)]].
+  - exists tid, t1. split; [reflexivity|]. split; [eapply nth_error_upd_same; exact En | exact Ho].
+  - exists tid', t0. split; [exact Hw0|]. split; [|exact Ho].
+    rewrite nth_error_upd_other; [exact Hn|]. intros Heq. subst tid'. apply Hne. exact Hw0.
+Qed.
+
+Lemma G_advance st ths dt : G st ths -> G (cadvance st dt) ths.
+Proof.
+  intros (pr & HI & HF & HP). exists pr. split; [apply Inv_advance; exact HI|]. split; assumption.
 Qed.
 
 Lemma crun_sched_G : forall steps st ths st' ths' tr,
@@ -342,7 +503,7 @@ Proof.
     destruct (crun_sched true st1 ths1 tl) as [[st2 ths2] tr2] eqn:E2.
     injection H as <- <- _.
     eapply IH; [|exact E2]. eapply csched_step_G; [|exact E1].
-    destruct HG as [HI HF]. split; [apply Inv_advance; exact HI | exact HF].
+    apply G_advance. exact HG.
 Qed.
 
 Lemma cround_G : forall tids st ths st' ths' tr,
@@ -368,42 +529,34 @@ Proof.
     eapply IH; [|exact E2]. eapply cround_G; eauto.
 Qed.
 
-Lemma crun_case_inv base pre progs steps st ths tr :
-  crun_case true base r pre progs steps = (st, ths, tr) -> Inv st None.
+Lemma crun_case_G base pre progs steps st ths tr :
+  crun_case true base r pre progs steps = (st, ths, tr) -> G st ths.
 Proof.
   intros H. unfold crun_case in H.
   destruct (crun_sched true (prelude true (cbs0 base r) (cthr0 []) pre)
               (map (fun p => cthr0 (ccompile p)) progs) steps) as [[st1 ths1] tr1] eqn:E1.
   destruct (cfinish true (ccode_total ths1) st1 ths1) as [[st2 ths2] tr2] eqn:E2.
-  injection H as <- _ _.
+  injection H as <- <- _.
   assert (G0 : G (prelude true (cbs0 base r) (cthr0 []) pre) (map (fun p => cthr0 (ccompile p)) progs)).
-  { split.
+  { exists None. split; [|split].
     - apply prelude_inv. split; reflexivity.
     - apply Forall_forall. intros t Ht. apply in_map_iff in Ht. destruct Ht as (p & <- & _).
-      left. cbn [cthr0 k_code]. apply okc_ccompile. }
+      left. cbn [cthr0 k_code]. apply okc_ccompile.
+    - intros w X; discriminate. }
   pose proof (crun_sched_G _ _ _ _ _ _ G0 E1) as G1.
-  pose proof (cfinish_G _ _ _ _ _ _ G1 E2) as [HI _]. exact HI.
+  exact (cfinish_G _ _ _ _ _ _ G1 E2).
+Qed.
+
+(** when every thread is done nobody is parked at the oracle point: no probe is pending *)
+Lemma G_done st ths : G st ths -> call_done ths = true -> Inv st None.
+Proof.
+  intros (pr & HI & _ & HP) Hd. destruct pr as [w|]; [|exact HI]. exfalso.
+  destruct (HP w eq_refl) as (tid & t & _ & Hn & Hk & _).
+  unfold call_done in Hd. rewrite forallb_forall in Hd.
+  apply nth_error_In in Hn. rewrite (Hd _ Hn) in Hk. discriminate.
 Qed.
 
 End Invariant.
-
-Theorem c16_every_schedule : forall base r pre progs steps st ths tr,
-  crun_case true base r pre progs steps = (st, ths, tr) ->
-  ok_c16 r (s_log st) = true.
-Proof.
-  intros base r pre progs steps st ths tr H.
-  apply crun_case_inv in H. destruct H as [_ H].
-  unfold ok_c16. eapply walk_ok. exact H.
-Qed.
-
-Theorem c16_log_state : forall base r pre progs steps st ths tr,
-  crun_case true base r pre progs steps = (st, ths, tr) ->
-  log_state Closed (s_log st) = s_state st.
-Proof.
-  intros base r pre progs steps st ths tr H.
-  apply crun_case_inv in H. destruct H as [_ H].
-  eapply walk_log_state. exact H.
-Qed.
 
 (* ------------------------------------------------------------------------------------------ *)
 (** * Termination *)
@@ -528,6 +681,28 @@ Proof.
 Qed.
 
 (* ------------------------------------------------------------------------------------------ *)
+(** * The two theorems on the log *)
+
+Theorem c16_every_schedule : forall base r pre progs steps st ths tr,
+  crun_case true base r pre progs steps = (st, ths, tr) ->
+  ok_c16 r (s_log st) = true.
+Proof.
+  intros base r pre progs steps st ths tr H.
+  pose proof (c16_all_finish _ _ _ _ _ _ _ _ _ H) as Hd.
+  apply crun_case_G in H. destruct (G_done _ _ _ H Hd) as [_ HW].
+  unfold ok_c16. eapply walk_ok. exact HW.
+Qed.
+
+Theorem c16_log_state : forall base r pre progs steps st ths tr,
+  crun_case true base r pre progs steps = (st, ths, tr) ->
+  log_state Closed (s_log st) = s_state st.
+Proof.
+  intros base r pre progs steps st ths tr H.
+  apply crun_case_G in H. destruct H as (pr & [_ HW] & _).
+  eapply walk_log_state. exact HW.
+Qed.
+
+(* ------------------------------------------------------------------------------------------ *)
 (** * Without the re-check under the lock the property fails *)
 
 Theorem c16_unchecked_refuted : exists base r pre progs steps,
@@ -536,7 +711,7 @@ Proof.
   exists 1700000000000,
          (mkBR 1 ErrCount 1000 1 10000 1 0 (f64_of_bits 4607182418800017408)),
          [PB; PX true; PA 1000],
-         [[KB]; [KB; KX true]],
+         [[KB false]; [KB false; KX true]],
          [(0%nat,0);(0%nat,0);(1%nat,0);(1%nat,0);(1%nat,0);(1%nat,0);(1%nat,0);(0%nat,0)].
   vm_compute. reflexivity.
 Qed.
